@@ -562,6 +562,13 @@ class spec_class:
             # default; for factory defaults there is no class-level value to
             # pick up (just the `MISSING` placeholder).
             attr_spec.default_factory = redeclared.default_factory
+        if (
+            redeclared is not None
+            and attr not in spec_cls.__dict__
+            and self.do_not_copy is MISSING
+        ):
+            # (likewise the copy behaviour, unless this class says otherwise)
+            attr_spec.do_not_copy = attr_spec.do_not_copy or redeclared.do_not_copy
         return self._finalise_attr_spec(spec_cls, attr_spec, helpers)
 
     def _finalise_attr_spec(self, spec_cls, attr_spec, helpers=True):
